@@ -28,6 +28,7 @@ type c06Case struct {
 	Generic           bool
 	K                 int
 	Pix               []int `json:"pix,omitempty"`
+	Frames            int   // 0/1: one frame; n > 1: n frames in one PixelData (frame f has content K+f)
 }
 
 // all byte contents are in the HTJ2K codec's domain (it declares BitsAllocated as precision)
@@ -94,6 +95,14 @@ func c06Run(a c06Case, c *eng.Ctx) *eng.Fail {
 	fr := c06Frame(a)
 	src := rcodec.NewTestPixelData(fi)
 	src.AddFrame(append([]byte(nil), fr...))
+	extra := [][]byte{}
+	for f := 1; f < a.Frames; f++ {
+		b := a
+		b.Pix, b.K = nil, a.K+f
+		ef := c06Frame(b)
+		extra = append(extra, ef)
+		src.AddFrame(append([]byte(nil), ef...))
+	}
 	var params gcodec.Parameters
 	if a.BW > 0 {
 		if a.Generic {
@@ -112,12 +121,18 @@ func c06Run(a c06Case, c *eng.Ctx) *eng.Fail {
 	if err := cd.Encode(src, enc, params); err != nil {
 		return eng.Failf("encode-error:"+stripDigits(err.Error()), "%v", err)
 	}
-	if enc.FrameCount() != 1 {
-		return eng.Failf("frame-count", "encode produced %d frames", enc.FrameCount())
+	if enc.FrameCount() != 1+len(extra) {
+		return eng.Failf("frame-count", "encode produced %d frames for %d", enc.FrameCount(), 1+len(extra))
 	}
 	dec := rcodec.NewTestPixelData(fi)
 	if err := cd.Decode(enc, dec, nil); err != nil {
 		return eng.Failf("decode-error:"+stripDigits(err.Error()), "%v", err)
+	}
+	for f, ef := range extra {
+		o, _ := dec.GetFrame(f + 1)
+		if !bytes.Equal(o, ef) {
+			return eng.Failf(fmt.Sprintf("mismatch-later-frame:BA%d-spp%d", a.BA, a.SPP), "ts=%d %dx%d BA%d SPP%d: frame %d of %d differs at byte %d", a.TS, a.W, a.H, a.BA, a.SPP, f+1, a.Frames, firstDiff(o, ef))
+		}
 	}
 	out, _ := dec.GetFrame(0)
 	if !bytes.Equal(out, fr) {
@@ -337,6 +352,9 @@ func c06(c *eng.Ctx) {
 				// default parameters (nil)
 				for k := 0; k < 11; k += 5 {
 					jobs = append(jobs, c06Case{TS: si % 2, W: sz[0], H: sz[1], BA: f.ba, BS: f.bs, SPP: spp, Signed: f.signed, K: k})
+					if k == 0 {
+						jobs = append(jobs, c06Case{TS: si % 2, W: sz[0], H: sz[1], BA: f.ba, BS: f.bs, SPP: spp, Signed: f.signed, K: 5, Frames: 3})
+					}
 				}
 			}
 		}
